@@ -20,7 +20,7 @@ shared state (link_successor, refcount/retired_at stores, tree removal, publicat
 except through add_write / add_replacement, which can only fail with ShuttingDown (shutdown flag writers and their callers
 are pinned). Not decided: that reads return the latest accepted value on every tier; equality with a reference map.
 """
-DECIDED = ['the value validated is the value published (computed values: patched document, CAS replacement)', "both deferred-value walkers follow the predecessor chain until a generation with a sector (no iteration bound)", "hash index and ordered index receive the same record for the same key at every publication site", "(a) strict last-writer-wins gate under the bucket guard", "(b) validate -> reserve -> publish; no error after publish",
+DECIDED = ['writer and recovery token folds agree, zero substitute included (shared with C10.token)', 'the value validated is the value published (computed values: patched document, CAS replacement)', "both deferred-value walkers follow the predecessor chain until a generation with a sector (no iteration bound)", "hash index and ordered index receive the same record for the same key at every publication site", "(a) strict last-writer-wins gate under the bucket guard", "(b) validate -> reserve -> publish; no error after publish",
            'writer and readers derive the same extent length for a record (shared with C05.len)',
            'the v1 key allowance applies to format version 1 only']
 NOT_DECIDED = ["(c) reads return the latest accepted value on every tier", "(d) equality with a reference map over all sequences/configurations"]
@@ -298,7 +298,14 @@ def check_extent_len(ctx):
     C05.check_len(ctx, "C01.extent-len")
 
 
+def check_token_agreement(ctx):
+    """a flushed record survives a clean reopen only if recovery recomputes the very token the writer stamped, the reserved-zero substitute included (same rule as C10.token; added after C01-i: the writer's substitute for a zero fold became 0xFFFF while recovery kept 1, so one record in 65536 made the whole store fail to reopen)"""
+    from rules import C10
+    C10.check_token(ctx, "C01.token-agreement")
+
+
 def check(ctx):
+    check_token_agreement(ctx)
     check_extent_len(ctx)
     check_key_bounds(ctx)
     check_deferred_walk(ctx)
